@@ -666,10 +666,27 @@ func (m *Mux) newUnderlay(ctx context.Context) (Underlay, error) {
 		if trafficPattern != nil {
 			block.SetNoncePattern(trafficPattern.GetNonce())
 		}
-		underlay, err = NewStreamUnderlay(ctx, m.dialer, m.resolver, m.clientDNSConfig, p.RemoteAddr().Network(), p.RemoteAddr().String(), p.MTU(), block, trafficPattern)
+		streamUnderlay, err := NewStreamUnderlay(ctx, m.dialer, m.resolver, m.clientDNSConfig, p.RemoteAddr().Network(), p.RemoteAddr().String(), p.MTU(), block, trafficPattern)
 		if err != nil {
 			return nil, fmt.Errorf("NewTCPUnderlay() failed: %v", err)
 		}
+		// The key is derived from the current time. The application may
+		// write to the first session minutes after the dial.
+		password, userName := m.password, m.username
+		streamUnderlay.refreshBlock = func() (cipher.BlockCipher, error) {
+			block, err := cipher.BlockCipherFromPassword(password, false)
+			if err != nil {
+				return nil, err
+			}
+			block.SetBlockContext(cipher.BlockContext{
+				UserName: userName,
+			})
+			if trafficPattern != nil {
+				block.SetNoncePattern(trafficPattern.GetNonce())
+			}
+			return block, nil
+		}
+		underlay = streamUnderlay
 	case common.PacketTransport:
 		block, err := cipher.BlockCipherFromPassword(m.password, true)
 		if err != nil {
